@@ -355,6 +355,8 @@ private:
     const std::string& get_name(const char* id) const;
     /** Invokes the bison generated parser to parse the given string. */
     int parse(const xmlChar*, xta_part_t syntax);
+    /** Collects the character data at the current position. */
+    bool text(std::string& result);
     /** Parse optional declaration. */
     bool declaration();
     /** Parse optional label. */
@@ -566,13 +568,40 @@ int XMLReader::parse(const xmlChar* text, xta_part_t syntax)
     return parse_XTA((const char*)text, parser, newxta, syntax, path.str());
 }
 
+/**
+ * Collects the character data at the current position: adjacent text
+ * nodes and CDATA sections are joined, comments and processing
+ * instructions between them are skipped (libxml2 reports "a <!-- c -->
+ * b" as three nodes). Returns false and reads nothing if the current
+ * node is neither; otherwise the reader is left at the first node
+ * that is not part of the character data.
+ */
+bool XMLReader::text(std::string& result)
+{
+    auto is_data = [](int type) { return type == XML_READER_TYPE_TEXT || type == XML_READER_TYPE_CDATA; };
+    auto is_skipped = [](int type) {
+        return type == XML_READER_TYPE_COMMENT || type == XML_READER_TYPE_PROCESSING_INSTRUCTION;
+    };
+    if (!is_data(getNodeType()) && !is_skipped(getNodeType()))
+        return false;
+    bool found = false;
+    for (int type = getNodeType(); is_data(type) || is_skipped(type); type = getNodeType()) {
+        if (is_data(type)) {
+            if (const xmlChar* value = xmlTextReaderConstValue(reader.get()); value != nullptr)
+                result += (const char*)value;
+            found = true;
+        }
+        read();
+    }
+    return found;
+}
+
 bool XMLReader::declaration()
 {
     if (begin(tag_t::DECLARATION)) {
         read();
-        if (getNodeType() == XML_READER_TYPE_TEXT) {
-            parse(xmlTextReaderConstValue(reader.get()), S_DECLARATION);
-        }
+        if (std::string decl; text(decl))
+            parse((const xmlChar*)decl.c_str(), S_DECLARATION);
         return true;
     }
     return false;
@@ -587,8 +616,8 @@ bool XMLReader::label(bool required, const std::string& s_kind)
             throw TypeException("A label must have a \"kind\" attribute");
         read();
         /* Read the text and push it to the parser. */
-        if (getNodeType() == XML_READER_TYPE_TEXT) {
-            const xmlChar* text = xmlTextReaderConstValue(reader.get());
+        if (std::string data; text(data)) {
+            const auto* text = (const xmlChar*)data.c_str();
             static const auto map = std::map<std::string_view, xta_part_t>{
                 {"invariant", S_INVARIANT},  {"select", S_SELECT},     {"guard", S_GUARD},
                 {"synchronisation", S_SYNC}, {"assignment", S_ASSIGN}, {"probability", S_PROBABILITY},
@@ -622,13 +651,12 @@ void XMLReader::invariant(std::vector<pending_label_t>& invariants, std::vector<
         /* Remember the text together with the path of its element: the
          * builder expects the invariant before the rate, whatever the
          * order of the two labels in the file is. */
-        if (getNodeType() == XML_READER_TYPE_TEXT) {
-            const xmlChar* text = xmlTextReaderConstValue(reader.get());
+        if (std::string data; text(data)) {
             auto kind_sv = std::string_view{kind};
             if (kind_sv == "invariant")
-                invariants.push_back({(const char*)text, path.str()});
+                invariants.push_back({data, path.str()});
             else if (kind_sv == "exponentialrate")
-                rates.push_back({(const char*)text, path.str()});
+                rates.push_back({data, path.str()});
         }
         xmlFree(kind);
     }
@@ -644,24 +672,19 @@ std::string XMLReader::name(bool instanceLine)
 
 std::string XMLReader::readText(bool instanceLine)
 {
-    if (getNodeType() == XML_READER_TYPE_TEXT) {  // text content of a node
-        xmlChar* text = xmlTextReaderValue(reader.get());
-        auto len = text ? std::strlen((const char*)text) : 0;
-        auto text_sv = std::string_view{(const char*)text, len};
-        tracker.setPath(parser, path.str());
+    const auto text_path = path.str();
+    if (std::string data; text(data)) {  // text content of a node
+        auto text_sv = std::string_view{data};
+        tracker.setPath(parser, text_path);
         tracker.increment(parser, text_sv.size());
         try {
             std::string_view id = (instanceLine) ? text_sv : symbol(text_sv);
-            if (!is_keyword(id, syntax_t::OLD_PROPERTY)) {
-                auto res = std::string{id};
-                xmlFree(text);
-                return res;
-            }
+            if (!is_keyword(id, syntax_t::OLD_PROPERTY))
+                return std::string{id};
             parser->handle_error(TypeException{"$Keywords_are_not_allowed_here"});
         } catch (std::logic_error& str) {
             parser->handle_error(TypeException{str.what()});
         }
-        xmlFree(text);
     }
     return "";
 }
@@ -1081,9 +1104,8 @@ int XMLReader::parameter()
     int count = 0;
     if (begin(tag_t::PARAMETER)) {
         read();
-        if (getNodeType() == XML_READER_TYPE_TEXT) {
-            count = parse(xmlTextReaderConstValue(reader.get()), S_PARAMETERS);
-        }
+        if (std::string params; text(params))
+            count = parse((const xmlChar*)params.c_str(), S_PARAMETERS);
     }
     return count;
 }
@@ -1178,11 +1200,10 @@ bool XMLReader::lscTempl()
 bool XMLReader::instantiation()
 {
     if (begin(tag_t::INSTANTIATION, false)) {
-        const auto* text = (const xmlChar*)"";
+        std::string inst;
         read();
-        if (getNodeType() == XML_READER_TYPE_TEXT)
-            text = xmlTextReaderConstValue(reader.get());
-        parse(text, S_INST);
+        text(inst);
+        parse((const xmlChar*)inst.c_str(), S_INST);
         return true;
     }
     return false;
@@ -1191,15 +1212,14 @@ bool XMLReader::instantiation()
 void XMLReader::system()
 {
     if (begin(tag_t::SYSTEM, false)) {
-        const auto* text = (const xmlChar*)"";
+        std::string data;
         read();
-        auto nodeType = getNodeType();
-        if (nodeType == XML_READER_TYPE_TEXT)
-            text = xmlTextReaderConstValue(reader.get());
+        text(data);
+        const auto* text = (const xmlChar*)data.c_str();
         // if there are no non-space characters in the text (or the text is empty),
         // bison doesn't manage to properly set the position of errors,
         // leading to nonsense error placements.
-        if (nodeType == XML_READER_TYPE_END_ELEMENT || is_blank(text)) {
+        if (is_blank(text)) {
             tracker.setPath(parser, path.str(tag_t::SYSTEM));
             tracker.increment(parser, 1);
             parser->handle_error(TypeException{"$syntax_error: $unexpected $end"});
